@@ -174,7 +174,17 @@ func (c *ctxT) queued(cfg cfgT, cl call, wentry, wmode string, wtoks []xml.Token
 		}
 		openGate()
 	case <-pr.reached:
-		order = "wh"
+		// W is parked under the lock.  If the call under test has returned as well it did so
+		// BEFORE W got the lock (it cannot run while W is parked): order hw, and the wire is
+		// still what it was when the call returned
+		// (its status may still be on its way through exec's goroutine: a grace period; a call
+		// that is really blocked behind W cannot return before the gate is opened)
+		select {
+		case sH = <-hDone:
+			snap = rs.Out.Bytes()
+		case <-time.After(50 * time.Millisecond):
+			order = "wh"
+		}
 		openGate()
 	case <-time.After(10 * time.Second):
 		stall("neither the call under test nor the queued call went on after the lock was released")
